@@ -5,6 +5,6 @@ from props import c09
 
 def main(tier, seed):
     chk = Check("C09", tier, seed)
-    c09.obligations(chk)
+    c09.all_obligations(chk)
     chk.resolve_failures(None)
     return chk.finish()
